@@ -174,7 +174,7 @@ func (x *G) attr(name, val string) string {
 }
 
 func (x *G) element(depth int) string {
-	kind := x.n("elkind", 11)
+	kind := x.n("elkind", 13)
 	if depth <= 0 && (kind == 0 || kind == 8) {
 		kind = 1
 	}
@@ -236,6 +236,20 @@ func (x *G) element(depth int) string {
 	case 10:
 		x.Feats["style-attr"]++
 		sb.WriteString("<circle" + x.attr("cx", x.pick("len", lengths)) + x.attr("cy", "5") + x.attr("r", x.pick("len", lengths)) + x.attr("style", x.pick("styleattr", []string{"fill : red ; stroke : #FF0000", "opacity:0.50", "fill:url(#g)"})) + "/>")
+	case 12:
+		// foreignObject: its content is copied, what follows it is minified again
+		x.Feats["foreignObject"]++
+		switch x.n("fokind", 2) {
+		case 0:
+			sb.WriteString("<foreignObject" + x.pick("foattrs", []string{"", " width=\"10\" height=\"10\""}) + x.pick("foempty", []string{"></foreignObject>", "> </foreignObject>", "/>"}))
+		case 1:
+			sb.WriteString("<foreignObject width=\"10\" height=\"10\"><g class=\"a b\" id=\"fo" + fmt.Sprint(x.n("foid", 9)) + "\" data-t=\"1 &gt; 0\" data-q='&quot;'><text>t  x</text></g></foreignObject>")
+		default:
+			sb.WriteString("<foreignObject width=\"10\" height=\"10\"><div xmlns=\"http://www.w3.org/1999/xhtml\" class=\"a b\" title=\"1 &gt; 0\">t  x<br/></div></foreignObject>")
+		}
+	case 13:
+		x.Feats["numeric-references"]++
+		sb.WriteString("<g" + x.attr("id", "r"+fmt.Sprint(x.n("rid", 9))) + " data-t=\"" + x.pick("refattr", []string{"a&#60;b", "x&#38;y", "&#x3c;&#x26;", "&lt;&amp;&gt;", "&#62;"}) + "\"><text x=\"1\" y=\"2\">" + x.pick("reftext", []string{"1 &#60; 2 &#38; 3", "&#x3C;b&#x3E;", "a &amp;amp; b", "&#38;lt;"}) + "</text></g>")
 	default:
 		sb.WriteString("<polygon" + x.attr("points", x.pick("points", []string{"0,0 10,0 10,10", "0 0 1.50 2.0 3 4", " 1,1  2,2 "})) + "/>")
 	}
